@@ -165,6 +165,9 @@ def real_pairs(job):
             c2, t2 = copy.deepcopy(c), copy.deepcopy(t)
             t2["feed"].kcals[m] += 0.05 * need
             pairs.append(dict(kind="more_charge", what="feed[%d]+0.05 need" % m, z0=z0, z1=z_of(c2, t2)))
+            c2, t2 = copy.deepcopy(c), copy.deepcopy(t)
+            t2["biofuel"].kcals[m] += 0.05 * need
+            pairs.append(dict(kind="more_charge", what="biofuel[%d]+0.05 need" % m, z0=z0, z1=z_of(c2, t2)))
     for k in (2.0, 0.5):
         c2, t2 = scaled(c, t, k)
         pairs.append(dict(kind="scale", what="x%g" % k, z0=z0, z1=z_of(c2, t2)))
